@@ -5,6 +5,7 @@ import (
 	"go/token"
 	"go/types"
 	"sort"
+	"strings"
 
 	"golang.org/x/tools/go/ssa"
 )
@@ -24,6 +25,8 @@ func init() {
 }
 
 func runC20(c *Check) {
+	LostReceiverStores(c, "C20.CFG", "components/delay", "components/metrics", "message")
+	DefaultsApplied(c, "C20.CFG", "components/delay", "components/metrics", "message")
 	c20Wrappers(c, "C20")
 	c20SubscriberPump(c, "C20")
 	c07Decorator(c, "C20")
@@ -174,6 +177,17 @@ func c20Wrappers(c *Check, P string) {
 				}
 			}
 			c.Report(ok, P+".O1", "TRANSFORM-EVERY-MESSAGE", pub, pub.Pos(), "transform publisher", "the transform is applied to every message (full range) before the inner Publish")
+			// and then the inner publisher gets the same topic and messages, once, and its result is the decorator's result
+			inner := CallsTo(pub, nPublish)
+			if c.Floor(P+".O1", "inner Publish in the transform publisher", len(inner), 1) {
+				ip := inner[0]
+				okArgs := len(inner) == 1 && !InLoop(ip) && FromParam(pub.Params[1])(Arg(ip, 0)) && FromParam(pub.Params[2])(Arg(ip, 1))
+				c.Report(okArgs, P+".O1", "TRANSFORM-PUBLISHES-SAME", pub, ip.Pos(), "inner Publish", "the inner publisher is called once with the caller's topic and the caller's (transformed) messages")
+				for i, r := range Returns(pub) {
+					c.Report(Dominates(pub, ip, r) && AllOrigins(r.Results[0], func(v ssa.Value) bool { return IsResultOf(v, ip, 0) }), P+".O1", "TRANSFORM-PUBLISH-RESULT", pub, r.Pos(), fmt.Sprintf("return#%d", i),
+						"every return of the decorator's Publish lies behind the inner Publish and hands back its result (no error is swallowed, nothing is reported published that was not)")
+				}
+			}
 		}
 	}
 }
@@ -625,9 +639,85 @@ func c20MethodValueSnapshots(c *Check, P string) {
 	c.Floor(P+".O3", "method values bound to a copy of a local decorator value in package metrics", n, 1)
 }
 
+// c20LabelsPerCall: the label set handed to a metric vector is a map that is filled in per message (success / acked
+// labels): it must be allocated per call — by the function that receives the message(s) or inside it — never once
+// per decorator, where concurrent calls would write the same map.
+func c20LabelsPerCall(c *Check, P string) {
+	n := 0
+	for _, fn := range c.P.SrcFuncs(metricsRel) {
+		for _, cl := range CallsIn(fn) {
+			if !strings.HasSuffix(CalleeName(cl), "Vec).With") || !strings.HasPrefix(CalleeName(cl), "(*"+promPkg) {
+				continue
+			}
+			n++
+			ok := true
+			var wit []string
+			for _, o := range Origins(Arg(cl, 0)) {
+				var at ssa.Instruction
+				switch x := o.(type) {
+				case *ssa.MakeMap:
+					at = x
+				case *ssa.Call:
+					// a helper of the package that builds a new map on every call (possibly through another such helper)
+					var freshMaker func(cal *ssa.Function, d int) bool
+					freshMaker = func(cal *ssa.Function, d int) bool {
+						if cal == nil || cal.Pkg != fn.Pkg || d > 2 || len(cal.Blocks) == 0 {
+							return false
+						}
+						for _, r := range Returns(cal) {
+							for _, ro := range RetOrigins(r, 0) {
+								switch y := ro.(type) {
+								case *ssa.MakeMap:
+									if y.Parent() != cal {
+										return false
+									}
+								case *ssa.Call:
+									if !freshMaker(CalleeFn(y.Common()), d+1) {
+										return false
+									}
+								default:
+									return false
+								}
+							}
+						}
+						return true
+					}
+					if freshMaker(CalleeFn(x.Common()), 0) {
+						at = x
+					}
+				case *ssa.Parameter:
+					continue // a label set handed in by the caller, judged at the caller's With
+				}
+				if at == nil {
+					ok = false
+					wit = append(wit, "label set is "+o.String())
+					continue
+				}
+				mm := at
+				perCall := false
+				for f := mm.Parent(); f != nil; f = f.Parent() {
+					for _, p := range f.Params {
+						t := p.Type().String()
+						if t == tMessagePtr || strings.HasSuffix(t, "[]"+tMessagePtr) || t == "[]"+tMessagePtr {
+							perCall = true
+						}
+					}
+				}
+				if !perCall {
+					ok = false
+					wit = append(wit, "label map allocated in "+FnName(mm.Parent())+" at "+c.P.Pos(mm.Pos())+", which is not entered per message")
+				}
+			}
+			c.Report(ok, P+".O3", "LABELS-PER-CALL", fn, cl.Pos(), "label set of a metric observation", "the label map of an observation is allocated per call (it is written per message; a map shared by concurrent calls is a data race and mixes labels)", wit...)
+		}
+	}
+	c.Floor(P+".O3", "metric vector With(labels) calls in package metrics", n, 3)
+}
+
 func c20Metrics(c *Check, P string) {
 	c20MetricsRegister(c, P)
 	c20MethodValueSnapshots(c, P)
+	c20LabelsPerCall(c, P)
 	// context marks
 	type mark struct{ set, get string }
 	keys := map[string]string{}
